@@ -10,4 +10,6 @@ S(id, sf, em, lim, le, rg, dk) == [id |-> id, sf |-> sf, em |-> em, lim |-> lim,
 QSettings == {S(1, 0, FALSE, None, None, FALSE, FALSE), S(2, 2, TRUE, 2, None, TRUE, FALSE)}
 (* thorough: additionally dump every generation + evaluation limit (DE kinds), and a later generation limit *)
 TSettings == QSettings \cup {S(3, 1, FALSE, None, 3 * NP, FALSE, TRUE), S(4, 3, FALSE, 3, None, FALSE, FALSE)}
+(* four instances (two created from the same snapshot, chains): the everything-on configuration only *)
+XSettings == {S(2, 2, TRUE, 2, None, TRUE, FALSE)}
 =============================================================================
